@@ -224,6 +224,51 @@ def phase_migration(ctx, R, orc, r, n):
                 ctx.count(("migration", role, state, json.dumps(specs, sort_keys=True)), res.applied > 0)
 
 
+def phase_amplification(ctx, R, orc, r, cat, n):
+    """a connection that decides to close while it may send (almost) nothing: (i) a server whose
+    3x anti-amplification budget is used up (AMP_STATES) receives a fatal frame from a key-holding
+    peer in every epoch, from the known and from another address, padded or not; (ii) an
+    established server is moved to a new, unvalidated path by tiny datagrams and then receives the
+    fatal frame.  Afterwards get_timer / handle_timer / datagrams_to_send / next_event are driven
+    until termination."""
+    other = ["9.9.9.9", 999]
+    third = ["8.8.8.8", 888]
+    fatal = [("stream", bytes.fromhex("0800")), ("unknown-type", b"\x1f"), ("handshake-done", b"\x1e"),
+             ("crypto-garbage", bytes.fromhex("06004100") + bytes(61)), ("maxstreams-huge", b"\x12" + R.V((1 << 62) - 1)),
+             ("close", bytes.fromhex("1c0a000000")), ("empty-stream-0rtt", bytes.fromhex("0a0000"))]
+    for state in R.AMP_STATES:
+        for epoch in ("INITIAL", "HANDSHAKE", "ONE_RTT", "ZERO_RTT"):
+            for addr in (None, other):
+                for pad in (None, 1200):
+                    items = fatal + [r.choice(cat) for _ in range(n)]
+                    for label, p in items:
+                        spec = {"k": "frames", "epoch": epoch, "hex": p.hex(), "label": label}
+                        if addr:
+                            spec["addr"] = addr
+                        if pad:
+                            spec["pad_to"] = pad
+                        scn = {"role": "server", "state": state, "seed": r.randrange(1000),
+                               "post": r.choice(["silent", "continue"]), "qlog": r.random() < 0.2, "inputs": [spec]}
+                        res = R.run_scenario(scn)
+                        orc.judge(R, scn, res)
+                        if res.applied == 0:
+                            break
+                        ctx.count(("amp", state, epoch, bool(addr), bool(pad), label), True)
+    small = ["01", "00", "1a0102030405060708", "0100", "0a0000"]
+    for role in ("server", "client"):
+        for state in ("hs4", "hs5", "connected", "streams", "keyupdate"):
+            for _ in range(n + 2):
+                k = r.choice([1, 2, 4, 10])
+                specs = [{"k": "frames", "hex": r.choice(small), "addr": other} for _ in range(k)]
+                label, p = r.choice(fatal + [r.choice(cat)])
+                specs.append({"k": "frames", "hex": p.hex(), "label": label, "addr": r.choice([other, other, third])})
+                scn = {"role": role, "state": state, "seed": r.randrange(1000), "post": r.choice(["silent", "continue"]),
+                       "interleave": r.choice([0, 0, 2]), "qlog": r.random() < 0.2, "inputs": specs}
+                res = R.run_scenario(scn)
+                orc.judge(R, scn, res)
+                ctx.count(("amp-newpath", role, state, json.dumps(specs)), res.applied > 0)
+
+
 def run_token_cases(ctx, R, orc, r, mds, n, cases):
     for c in cases:
         scn = {"role": "client", "seed": r.randrange(1000), "mds": mds, "post": r.choice(["silent", "continue"]),
@@ -277,6 +322,36 @@ def phase_transport_parameters(ctx, R, orc, r, limit):
             scn = {"role": role, "state": "handshake", "tp_mutation": label, "seed": seed, "crafted": res.crafted}
             orc.judge(R, scn, res, kind="tp")
             ctx.count(("tp", role, label), True)
+
+
+def phase_version_configs(ctx, R, orc, r, per_config):
+    """configurations are part of the quantifier: every version_information (and a sample of the
+    other) transport-parameter mutations, for each supported_versions list of the victim and of the
+    peer, with and without an explicit original_version"""
+    muts = R.tp_mutations(r)
+    vmuts = [m for m in muts if m[0].startswith("vi")]
+    others = [m for m in muts if not m[0].startswith("vi")]
+    for role in ("server", "client"):
+        for vconf in R.VERSION_CONFIGS:
+            # the version_information lattice is run exhaustively against a SERVER victim (it negotiates
+            # the version from it); sampled for a client victim in the quick tier
+            chosen = vmuts if (per_config is None or role == "server") else r.sample(vmuts, min(per_config, len(vmuts)))
+            compat = [c for c in R.VERSION_CONFIGS if set(c) & set(vconf)]
+            work = [(label, op, pconf) for label, op in chosen
+                    for pconf in (compat if per_config is None else r.sample(compat, min(2, len(compat))))]
+            work += [(label, op, r.choice(compat)) for label, op in r.sample(others, 3)]
+            for label, op, pconf in work:
+                co = {"supported_versions": pconf if role == "server" else vconf}
+                so = {"supported_versions": vconf if role == "server" else pconf}
+                if r.random() < 0.3:
+                    co["original_version"] = r.choice(co["supported_versions"])
+                seed = r.randrange(1000)
+                res = R.run_tp_scenario(role, label, op, seed, qlog=r.random() < 0.2, client_options=co,
+                                        server_options=so)
+                scn = {"role": role, "state": "handshake", "tp_mutation": label, "seed": seed,
+                       "client_options": co, "server_options": so, "crafted": res.crafted}
+                orc.judge(R, scn, res, kind="tp")
+                ctx.count(("tp-config", role, label, json.dumps([co, so], sort_keys=True)), True)
 
 
 # --------------------------------------------------------------------------- translator tie
@@ -335,7 +410,7 @@ def main(tier):
     orc = Oracle(ctx)
     t0 = time.time()
     cat = R.catalogue(r, n_random=40 if not thorough else 400)
-    all_states = R.STATES + R.SPARE_CID_STATES + R.ZERO_RTT_STATES
+    all_states = R.STATES + R.SPARE_CID_STATES + R.AMP_STATES + R.ZERO_RTT_STATES
 
     # (a) datagrams
     phase_datagrams(ctx, R, orc, r, 40 if not thorough else 150, all_states)
@@ -357,12 +432,17 @@ def main(tier):
     phase_migration(ctx, R, orc, r, 20 if not thorough else 150)
     ctx.notes["t_migration"] = round(time.time() - t0, 1)
 
+    # (b+) closing while the anti-amplification budget leaves no room for a packet
+    phase_amplification(ctx, R, orc, r, cat, 8 if not thorough else 40)
+    ctx.notes["t_amplification"] = round(time.time() - t0, 1)
+
     # (b'') Retry / NEW_TOKEN tokens of every size x max_datagram_size; Retry and Version Negotiation sequences
     phase_retry_tokens(ctx, R, orc, r, thorough)
     ctx.notes["t_retry_tokens"] = round(time.time() - t0, 1)
 
     # (c) transport parameters
     phase_transport_parameters(ctx, R, orc, r, 120 if not thorough else 10 ** 6)
+    phase_version_configs(ctx, R, orc, r, 14 if not thorough else None)
     ctx.notes["t_tp"] = round(time.time() - t0, 1)
 
     lg.removeHandler(h)
@@ -437,7 +517,8 @@ def replay(path):
     elif rep.get("kind") == "tp":
         scn = rep["scenario"]
         ops = dict(R.tp_mutations(rng.make("replay")))
-        res = R.run_tp_scenario(scn["role"], scn["tp_mutation"], ops[scn["tp_mutation"]], scn["seed"])
+        res = R.run_tp_scenario(scn["role"], scn["tp_mutation"], ops[scn["tp_mutation"]], scn["seed"],
+                                client_options=scn.get("client_options"), server_options=scn.get("server_options"))
     else:
         print("nothing to replay in", path)
         return 2
